@@ -87,7 +87,7 @@ def run(tier):
         syms = []
         for k, s in enumerate(t["tab"][1:]):
             syms.append({"name": s["name"] * (1 + 40 * (k % 2)), "value": [0, 8, 2**63, 2**64 - 16][(ti + k) % 4], "size": [0, 1, 2**32][(ti + k) % 3],
-                         "type": s["type"], "bind": s["bind"], "vis": s["vis"], "shndx": [1, 0xfff1, 0, 1][(ti + 2 * k) % 4]})
+                         "type": s["type"], "bind": s["bind"], "vis": s["vis"], "shndx": [1, 0xfff1, 0, 1, 0xfff2][(ti + 2 * k) % 5]})
         p = os.path.join(wd, "sym%d.o" % ti)
         elfgen.write_obj(p, m, syms, big_endian=(m in ("sparc", "ppc64") and ti % 2 == 0))
         jobs.append((p, Q, False)); meta.append((p, m, t))
@@ -99,6 +99,10 @@ def run(tier):
         # MIPS PLT / PIC / MIPS16, AArch64 variant PCS ...); visibility is the low two bits only
         syms += [{"name": "o%d" % k, "value": 0, "size": 0, "type": 2, "bind": 1, "vis": k % 4, "other": ob, "shndx": 1}
                  for k, ob in enumerate([0x60, 0x80, 0x08, 0xfc, 0x04, 0x20, 0xe0, 0x10])]
+        # symbols that are not in any section: absolute, undefined, common (st_value of an unallocated common
+        # symbol is its alignment: it is reported like any other st_value)
+        syms += [{"name": "c%d" % k, "value": v, "size": 4 * k, "type": ty, "bind": 1, "vis": 0, "shndx": sx}
+                 for k, (v, ty, sx) in enumerate([(8, 1, 0xfff2), (32, 5, 0xfff2), (1, 1, 0xfff2), (2**40, 1, 0xfff2), (16, 1, 0xfff1), (16, 0, 0)])]
         syms += [{"name": "", "value": 7, "size": 0, "type": 1, "bind": 1, "vis": 0, "shndx": 1}, {"name": "x" * 3000, "value": 1, "size": 1, "type": 2, "bind": 2, "vis": 3, "shndx": 0}]
         p = os.path.join(wd, "all-%s.o" % m)
         elfgen.write_obj(p, m, syms)
@@ -107,7 +111,7 @@ def run(tier):
     nok = 0
     for (p, m, t), rec in zip(meta, recs):
         vd.cov["evaluations"] += 1
-        n = len(t["tab"]) if t else 42
+        n = len(t["tab"]) if t else 48
         if check_file(vd, p, rec, m, "generated symbol table (%s, %d entries)" % (m, n)):
             nok += 1
         # cross-check of the generator with readelf
